@@ -63,6 +63,9 @@ def alphabet(F, rng):
     add(1, 'read_subvolume', [0, 2, 0, 2, 0, min(nz, 8)])
     add(1, 'read_subvolume', [0, 2, 0, 2, min(4, nz - 2), min(nz, 8)])   # differs in min_z only
     add(1, 'read_subvolume', [0, 2, 1, 2, 0, min(nz, 8)])
+    if ni >= 12 and nx >= 12:       # a wide box and two boxes inside it at other block-aligned origins (every order of the three is replayed)
+        for box in ([0, 12, 0, 12, 0, nz], [4, 8, 4, 8, 0, min(nz, 50)], [8, 12, 8, 12, 0, min(nz, 50)]):
+            A.append({'r': 1, 'op': 'read_subvolume', 'a': box, 'nest': True})
     tc = readcalls.tracecount(F)
     t0, t1 = min(3, tc - 1), min(4, tc - 1)
     add(1, 'get_trace', [t0, NONE, NONE])
@@ -362,6 +365,10 @@ def run(run):
             if len(sand) > 160:
                 sand = [sand[i] for i in sorted(rng.choice(len(sand), size=160, replace=False))]
             items += [(j, h, False) for h in sand]
+        nest = [i + 1 for i, c in enumerate(A) if c.get('nest')]
+        if len(nest) == 3:
+            import itertools
+            items += [(j, h, False) for h in itertools.permutations(nest)]
     par.G['jobs'] = jobs
     for item, res in zip(items, par.pmap(_worker, items)):
         if isinstance(res, par.Crash):
